@@ -321,10 +321,43 @@ def instantiate_at_goal(hyps, goal_parts, cap=400):
         import itertools as _it
         for combo in _it.islice(_it.product(*cands), 36):
             try:
-                out.append(z3.substitute_vars(h.body(), *reversed(combo)))
+                b = z3.substitute_vars(h.body(), *reversed(combo))
             except z3.Z3Exception:
-                pass
+                continue
+            out.append(b)
+            out.extend(_nested_instances(b, terms, 24))
     return out
+
+
+def _nested_instances(f, terms, cap, depth=0):
+    """instances of universally quantified sub-formulas in positive position (under the consequent of implications and
+    under conjunctions), each kept under its guards: sound consequences of f"""
+    import itertools as _it
+    if cap <= 0 or depth > 3:
+        return []
+    if z3.is_implies(f):
+        return [z3.Implies(f.arg(0), r) for r in _nested_instances(f.arg(1), terms, cap, depth)]
+    if z3.is_and(f):
+        out = []
+        for c in f.children():
+            out += _nested_instances(c, terms, cap - len(out), depth)
+        return out
+    if z3.is_quantifier(f) and f.is_forall() and f.num_vars() <= 2:
+        cands = [terms.get(str(f.var_sort(i)), []) for i in range(f.num_vars())]
+        if any(not c for c in cands):
+            return []
+        out = []
+        for combo in _it.islice(_it.product(*cands), 12):
+            if len(out) >= cap:
+                break
+            try:
+                b = z3.substitute_vars(f.body(), *reversed(combo))
+            except z3.Z3Exception:
+                continue
+            out.append(b)
+            out += _nested_instances(b, terms, cap - len(out), depth + 1)
+        return out
+    return []
 
 
 COUNTER_NAMES = ['model', 'loss', 'random.random', 'random.randrange', 'random.randint', 'np.random.permutation',
@@ -408,10 +441,33 @@ class Options:
         self.extra = extra or {}
 
 
+class PC(list):
+    """the path condition.  A fact added while a comprehension element is being evaluated speaks about that element: it is
+    closed over the bound variables of the enclosing quantifier frames (whoever adds it, with assume / append / +=)"""
+
+    def __init__(self, run, items=()):
+        super().__init__(items)
+        self.run = run
+
+    def _c(self, f):
+        return self.run._close(f) if self.run.qstack else f
+
+    def append(self, f):
+        super().append(self._c(f))
+
+    def extend(self, fs):
+        super().extend([self._c(f) for f in fs])
+
+    def __iadd__(self, fs):
+        self.extend(fs)
+        return self
+
+
 class Run:
     def __init__(self, fspec, fdef, mod, explorer, opts):
         self.fspec, self.fdef, self.mod, self.explorer, self.opts = fspec, fdef, mod, explorer, opts
-        self.pc = []
+        self.pc = PC(self)
+        self.skolems = set()
         self.env = {}
         self.events = []
         self.obligations = []
@@ -457,13 +513,24 @@ class Run:
                 continue
             if z3.is_true(f):
                 continue
-            if self.qstack:
-                f = self._close(f)
             self.pc.append(f)
 
     def _close(self, fact):
         vars_ = [v for fr in self.qstack for v in fr.vars]
         guard = z3.And(*[fr.guard for fr in self.qstack])
+        # trigger: an application of an element-wise skolem function (fresh_const) to exactly the bound variables
+        pats, seen, todo = [], set(), [fact]
+        while todo and not pats:
+            t = todo.pop()
+            if t.get_id() in seen or z3.is_quantifier(t) or z3.is_var(t):
+                continue
+            seen.add(t.get_id())
+            if z3.is_app(t) and t.decl().kind() == z3.Z3_OP_UNINTERPRETED and t.num_args() == len(vars_) \
+                    and t.decl().name() in self.skolems and all(a.eq(v) for a, v in zip(t.children(), vars_)):
+                pats.append(t)
+            todo.extend(t.children())
+        if pats:
+            return z3.ForAll(vars_, z3.Implies(guard, fact), patterns=pats[:1])
         return z3.ForAll(vars_, z3.Implies(guard, fact))
 
     def feasible(self, cond):
@@ -535,6 +602,16 @@ class Run:
         term = f(*vars_)
         self.assume(*typ.wf(term))
         return typ.wrap(term)
+
+    def fresh_const(self, sort, base):
+        """fresh z3 term of the given sort; inside a quantified context (comprehension element) a skolem function of the
+        bound variables - a plain constant there would be ONE value for all elements"""
+        if not self.qstack:
+            return z3.Const(fresh_name(base), sort)
+        vars_ = [v for fr in self.qstack for v in fr.vars]
+        nm = fresh_name(base)
+        self.skolems.add(nm)
+        return z3.Function(nm, *[v.sort() for v in vars_], sort)(*vars_)
 
     def _wf_obj(self, o):
         out = []
@@ -917,7 +994,7 @@ class Run:
         raise Unsupported(f"constant {v!r}")
 
     def ex_JoinedStr(self, e):
-        return SKey(z3.Const(fresh_name('fstr'), sym.KeyS))
+        return SKey(self.fresh_const(sym.KeyS, 'fstr'))
 
     def ex_Name(self, e):
         n = e.id
@@ -1165,6 +1242,11 @@ class Run:
             return num_key(a) == b.t
         if isinstance(a, SKey) and isinstance(b, SNum):
             return a.t == num_key(b)
+        from . import pylib
+        if isinstance(a, pylib.DictView) or isinstance(b, pylib.DictView):
+            # depends on the iteration (insertion) order of a dict, which the value model leaves open: an opaque condition
+            self.trusted.add('comparisons involving the key order of a dict are opaque (either outcome is explored)')
+            return self.fresh_const(z3.BoolSort(), 'dict_order_cmp')
         if isinstance(a, SV) and isinstance(b, SV):
             ta, tb = pack(a), pack(b)
             if ta.sort() == tb.sort():
@@ -1419,6 +1501,8 @@ class Run:
         self.comp_close(frames)
         self.env = saved
         res.comp_def = (frames[0].index, kt, vt, guard)
+        if len(frames) == 1 and frames[0].it.kind == 'seq' and not e.generators[0].ifs and not self.qstack:
+            res.order = (frames[0].it.n, frames[0].index, kt, vt, vtyp)
         if vtyp is TNum and not self.qstack:
             from . import lemmas
             self.assume(*lemmas.msum_zero(dt, res.dom, res.val))
@@ -1589,7 +1673,7 @@ class Run:
         for exc, r in fs.raises.items():
             if exc == 'CallbackError' and not self.opts.fault_mode:
                 continue        # callee failures caused by callbacks are only explored in fault mode
-            cond = r['when'](cpre) if r.get('when') else z3.Bool(fresh_name('raises_' + exc))
+            cond = r['when'](cpre) if r.get('when') else self.fresh_const(z3.BoolSort(), 'raises_' + exc)
             self.may_raise(cond, exc, f"from {fs.key}")
         if fs.may_fail and self.opts.fault_mode:
             self.fault_point(fs.key)
@@ -1654,7 +1738,7 @@ class Run:
         self.fault_count += 1
         if self.qstack:
             # inside a comprehension: some element's evaluation may fail (handled when the comprehension closes)
-            self.qstack[-1].raises.append((z3.Bool(fresh_name('fault')), 'CallbackError'))
+            self.qstack[-1].raises.append((self.fresh_const(z3.BoolSort(), 'fault'), 'CallbackError'))
             return
         if self.choose(z3.Bool(fresh_name('fault'))):
             raise PyRaise('CallbackError', what)
@@ -1797,7 +1881,7 @@ class PyEmptyDict(SV):
     typ = None
 
 
-BUILTIN_NAMES = {'len', 'sum', 'max', 'min', 'set', 'list', 'dict', 'range', 'zip', 'enumerate', 'float', 'int',
+BUILTIN_NAMES = {'len', 'sum', 'max', 'min', 'set', 'list', 'dict', 'range', 'zip', 'enumerate', 'reversed', 'float', 'int',
                  'str', 'isinstance', 'hasattr', 'abs', 'round', 'all', 'any', 'type', 'iter', 'tuple',
                  'NotImplementedError', 'ValueError', 'KeyError', 'TypeError', 'AttributeError', 'Exception',
                  'ZeroDivisionError', 'ImportError', 'UserWarning', 'DeprecationWarning', 'print', 'super'}
